@@ -43,6 +43,9 @@ def units(tier, seed):
         gen = AL.systems(shapes, seed=seed, cross=True, bounds=["ub-finite", "lb-pos", "scalar", "lb-mixed"])
     out = []
     plain = {}
+    # call histories across systems of different sizes with the same number of surplus sources (module-level state must not leak)
+    for surplus in (1, 2):
+        out.append(dict(kind="sequence", surplus=surplus, names=dict(shape="sequence", surplus=surplus), spec=None, tier=tier))
     for names, A, (lb, ub), K, bl in gen:
         out.append(dict(names=names, spec=B.spec_of(A, lb, ub, K, bl), tier=tier))
         if names.get("K") == "default" and names.get("baseline") == "default" and names.get("bounds") in ("ub-finite", "lb-mixed"):
@@ -87,7 +90,42 @@ def _script(spec, t, **kw):
     return B.script_est(spec) + "b = np.array(%r)\nprint(est.range_of_solutions(b%s))\n" % (np.asarray(t).tolist(), "".join(", %s=%r" % kv for kv in kw.items()))
 
 
+def _run_sequence(unit, rec):
+    """systems of growing and shrinking size with the same surplus, queried one after the other in one process"""
+    import dreye
+
+    s_ = unit["surplus"]
+    shapes = [(2, 2 + s_), (3, 3 + s_), (4, 4 + s_), (2, 2 + s_), (3, 3 + s_)]
+    for step, (m, n) in enumerate(shapes):
+        A = AL.A_palette(m, n, seeded=False)[0][1]
+        lo, hi = np.zeros(n), 1.0 + 0.25 * np.arange(n)
+        X_ = np.array([lo + (hi - lo) * (0.3 + 0.05 * ((np.arange(n) + k) % 5)) for k in range(3)])
+        P = X_ @ A.T
+        rec.path()
+        rec.trans()
+        sig = dict(shape="sequence", surplus=s_, target="inside", api="dreye.range_of_solutions", mode="sequence")
+        try:
+            mn, mx = dreye.range_of_solutions(P, A, lo, hi)
+        except Exception as e:  # noqa
+            _v(rec, "a", dict(sig, **exc_sig(e)), "range_of_solutions raised %r for system %d of the sequence %s" % (e, step, shapes), dict(step=step, shapes=shapes))
+            rec.outcome("sequence/exception")
+            continue
+        okq = True
+        for j in range(len(P)):
+            V = O.poly_vertices(A, P[j], lo, hi)
+            if len(V) and (np.any(np.abs(mn[j] - V.min(0)) > 1e-7 * (hi - lo)) or np.any(np.abs(mx[j] - V.max(0)) > 1e-7 * (hi - lo))):
+                okq = False
+                _v(rec, "a", dict(sig, what="extent"), "range of solutions of system %d (%dx%d) in the call sequence %s differs from the polytope extents" % (step, m, n, shapes), dict(step=step, shapes=shapes, row=j),
+                   observed=dict(min=mn[j], max=mx[j]), expected=dict(min=V.min(0), max=V.max(0)))
+                break
+        rec.distinct(("sequence", s_, step))
+        rec.outcome("sequence/%s" % ("exact" if okq else "wrong"))
+    rec.sample(dict(kind="sequence", surplus=s_, shapes=shapes), cap=1)
+
+
 def run_unit(unit, rec):
+    if unit.get("kind") == "sequence":
+        return _run_sequence(unit, rec)
     spec, names, tier = unit["spec"], unit["names"], unit["tier"]
     cu = {"x1e-3": 1e-3, "x1e-5": 1e-5, "x1e3": 1e3}.get(names.get("capture_unit"), 1.0)
     try:
@@ -237,6 +275,9 @@ def run_unit(unit, rec):
                     continue
                 rec.distinct((spec, idx, "spaced", nn))
                 bad = []
+                # the reported extent does not depend on whether spaced solutions were requested as well
+                if not (np.array_equal(np.asarray(r3[0], dtype=float).reshape(-1), mn.reshape(-1)) and np.array_equal(np.asarray(r3[1], dtype=float).reshape(-1), mx.reshape(-1))):
+                    bad.append("the reported minima / maxima change when n spaced solutions are requested (max dev %.3g)" % max(np.max(np.abs(np.asarray(r3[0], dtype=float).reshape(-1) - mn.reshape(-1))), np.max(np.abs(np.asarray(r3[1], dtype=float).reshape(-1) - mx.reshape(-1)))))
                 if Xs.ndim != 2 or Xs.shape[1] != n or Xs.shape[0] < 1:
                     bad.append("wrong shape %s" % (Xs.shape,))
                 else:
